@@ -36,12 +36,18 @@ def run(tier: str) -> int:
         progs = gen_seq.programs(tier, rep.seed)
         budget = 170 if tier == "quick" else 2400
         t0 = time.time()
-        done = 0
-        for prog in progs:
-            if time.time() - t0 > budget:
-                break
-            done += 1
-            r = check_program(rep, wd, prog, 4, ref_cls=RefSeq)
+
+        def job(i, rw, wdw):
+            prog = progs[i]
+            r = check_program(rw, wdw, prog, 4, ref_cls=RefSeq)
+            keep = {k: r[k] for k in ("status", "why", "clock", "log", "trace", "init", "vhdl", "hash", "step_cex") if k in r}
+            return keep
+
+        from ..core import parallel_programs
+        results = parallel_programs(rep, len(progs), job, deadline=t0 + budget)
+        done = len(results)
+        for i in sorted(results):
+            prog, r = progs[i], results[i]
             s = r["status"]
             counts[s] = counts.get(s, 0) + 1
             if s == "violation":
@@ -49,7 +55,7 @@ def run(tier: str) -> int:
                               {"source": prog.source, "trace": r["trace"], "init": r["init"], "log": r["log"], "vhdl": r["vhdl"]})
             elif s == "illegal":
                 rep.violation(f"seq-illegal|{hash_body(prog)}", f"emitted VHDL illegal: {r['why']}", {"source": prog.source, "vhdl": r["vhdl"]})
-            elif s == "inconclusive":
+            elif s in ("inconclusive", "worker-error"):
                 rep.inconclusive_query(f"{hash_body(prog)}: {r['why']}")
             elif s == "bounded":
                 # a single-state process has the identity relation: a failing step from an arbitrary state that BMC
